@@ -661,7 +661,7 @@ Qed.
 
 Lemma parse_off_some c sp ps : parse_datetimespec c sp = Ok ps -> exists o, off ps = Some o.
 Proof.
-  destruct sp as [| |[w [o|]]|d|y mo w d h mi x|]; cbn [parse_datetimespec off]; intros H;
+  destruct sp as [| |[w [o|]]|d|y mo w d h mi x| |]; cbn [parse_datetimespec off]; intros H;
     inversion H; subst; cbn [off]; eauto.
 Qed.
 
@@ -867,3 +867,888 @@ Lemma regression_timezone_false :
   datetime_between c c (SStamp s) (SStamp e) None (Some 0) 1024 = Ok (instant s, None) /\
   datetime_between c c (SStamp s) (SStamp e) None (Some 512) 1024 = Ok (w_10h + 1500000, None).
 Proof. cbv zeta. split; vm_compute; reflexivity. Qed.
+
+(* ================================================================== round 3: the text of the arguments,
+   blocks rendered row by row, calendar arithmetic *)
+
+(* ------------------------------------------------------------------ scale invariance *)
+
+Lemma psums_scale k acc zs : psums (k * acc) (map (Z.mul k) zs) = map (Z.mul k) (psums acc zs).
+Proof.
+  revert acc; induction zs as [|z r IH]; intros acc; cbn [map psums]; [reflexivity|].
+  replace (k * acc + k * z) with (k * (acc + z)) by lia. rewrite IH. reflexivity.
+Qed.
+
+Lemma last_opt_map {A B} (f : A -> B) l : last_opt (map f l) = option_map f (last_opt l).
+Proof.
+  induction l as [|x r IH]; [reflexivity|]. destruct r as [|y r']; [reflexivity|].
+  change (map f (x :: y :: r')) with (f x :: map f (y :: r')).
+  change (last_opt (f x :: map f (y :: r'))) with (last_opt (map f (y :: r'))).
+  rewrite IH. reflexivity.
+Qed.
+
+Lemma lt_at_scale k cum xn den i :
+  0 < k -> lt_at (map (Z.mul k) cum) (k * xn) den i = lt_at cum xn den i.
+Proof.
+  intros Hk. unfold lt_at. rewrite nth_error_map.
+  destruct (nth_error cum (Z.to_nat i)) as [c|]; cbn [option_map]; [|reflexivity].
+  f_equal. destruct (xn <? c * den) eqn:E.
+  - apply Z.ltb_lt in E. apply Z.ltb_lt. nia.
+  - apply Z.ltb_ge in E. apply Z.ltb_ge. nia.
+Qed.
+
+Lemma bisect_scale k fuel cum xn den lo hi :
+  0 < k -> bisect_right fuel (map (Z.mul k) cum) (k * xn) den lo hi = bisect_right fuel cum xn den lo hi.
+Proof.
+  intros Hk. revert lo hi; induction fuel as [|f IH]; intros lo hi; cbn [bisect_right]; [reflexivity|].
+  destruct (lo <? hi); [|reflexivity].
+  rewrite lt_at_scale by assumption.
+  destruct (lt_at cum xn den ((lo + hi) / 2)) as [[|]|]; cbn [bind]; auto.
+Qed.
+
+Lemma weighted_choice_scale k ws opts d den :
+  0 < k -> weighted_choice (map (option_map (Z.mul k)) ws) opts d den = weighted_choice ws opts d den.
+Proof.
+  intros Hk. unfold weighted_choice.
+  destruct (in_dec (fun a b : option Z => ltac:(decide equality; apply Z.eq_dec)) None ws) as [Hin|Hnot].
+  - rewrite !accumulate_none; [reflexivity|assumption|].
+    apply in_map_iff. exists None. split; [reflexivity|assumption].
+  - assert (Hzs : exists zs, ws = map Some zs).
+    { clear -Hnot. induction ws as [|[w|] r IH].
+      - exists []. reflexivity.
+      - destruct IH as (zs & ->); [intros H; apply Hnot; right; assumption|].
+        exists (w :: zs). reflexivity.
+      - exfalso. apply Hnot. left. reflexivity. }
+    destruct Hzs as (zs & ->).
+    rewrite map_map. cbn [option_map].
+    replace (map (fun x : Z => Some (k * x)) zs) with (map Some (map (Z.mul k) zs)) by (rewrite map_map; reflexivity).
+    rewrite !accumulate_some. cbn [bind].
+    assert (Hps : psums 0 (map (Z.mul k) zs) = map (Z.mul k) (psums 0 zs)).
+    { rewrite <- psums_scale. f_equal. lia. }
+    rewrite Hps.
+    rewrite last_opt_map. destruct (last_opt (psums 0 zs)) as [total|]; cbn [option_map]; [|reflexivity].
+    destruct (total <=? 0) eqn:E.
+    + replace (k * total <=? 0) with true by (symmetry; apply Z.leb_le; apply Z.leb_le in E; nia). reflexivity.
+    + replace (k * total <=? 0) with false by (symmetry; apply Z.leb_gt; apply Z.leb_gt in E; nia).
+      unfold draw_below. destruct d as [v|]; [|reflexivity].
+      destruct ((0 <=? v) && (v <? den)); [|reflexivity].
+      rewrite map_length. replace (v * (k * total)) with (k * (v * total)) by lia.
+      rewrite bisect_scale by assumption. reflexivity.
+Qed.
+
+(* ------------------------------------------------------------------ decimals on a common denominator *)
+
+Lemma pow10_pos n : 0 < pow10 n.
+Proof. unfold pow10. apply Z.pow_pos_nonneg; lia. Qed.
+
+Lemma scale_to_sign P d :
+  (0 < scale_to P d <-> 0 < dnum d) /\ (0 <= scale_to P d <-> 0 <= dnum d).
+Proof. unfold scale_to. pose proof (pow10_pos (P - dplaces d)). split; split; nia. Qed.
+
+Definition scale_with (P : nat) (ws : list (option dec)) : list (option Z) :=
+  map (option_map (scale_to P)) ws.
+
+Lemma max_places_ge ws d : In (Some d) ws -> (dplaces d <= max_places ws)%nat.
+Proof.
+  induction ws as [|[x|] r IH]; intros H; [destruct H| |]; cbn [max_places].
+  - destruct H as [H|H]; [inversion H; subst; lia|]. specialize (IH H). lia.
+  - destruct H as [H|H]; [discriminate|]. auto.
+Qed.
+
+Lemma scale_with_more P Q ws :
+  (max_places ws <= P)%nat -> (P <= Q)%nat ->
+  scale_with Q ws = map (option_map (Z.mul (pow10 (Q - P)))) (scale_with P ws).
+Proof.
+  intros HP HQ. unfold scale_with. rewrite map_map. apply map_ext_in.
+  intros [d|] Hin; cbn [option_map]; [|reflexivity]. f_equal.
+  pose proof (max_places_ge ws d Hin) as Hd. unfold scale_to, pow10.
+  replace (Z.of_nat (Q - dplaces d)) with (Z.of_nat (Q - P) + Z.of_nat (P - dplaces d)) by lia.
+  rewrite Z.pow_add_r by lia. lia.
+Qed.
+
+(* any common denominator gives the same choice *)
+Lemma common_denominator_irrelevant ws Q opts d den :
+  (max_places ws <= Q)%nat ->
+  weighted_choice (scale_with Q ws) opts d den = weighted_choice (scale_weights ws) opts d den.
+Proof.
+  intros HQ. rewrite (scale_with_more (max_places ws) Q ws) by lia.
+  rewrite weighted_choice_scale by apply pow10_pos. reflexivity.
+Qed.
+
+(* ------------------------------------------------------------------ blocks rendered per row *)
+
+Definition tok_parsed (t : option wtok) (w : option dec) : Prop :=
+  match t, w with
+  | None, None => True
+  | Some t, Some d => parse_weight_str t = Ok d
+  | _, _ => False
+  end.
+
+Lemma parse_weights_forall2 ts ws : parse_weights ts = Ok ws -> Forall2 tok_parsed ts ws.
+Proof.
+  revert ws; induction ts as [|[t|] r IH]; intros ws H; cbn [parse_weights] in H.
+  - inversion H. constructor.
+  - destruct (parse_weight_str t) as [w|] eqn:Et; cbn [bind] in H; [|discriminate].
+    destruct (parse_weights r) as [ws'|] eqn:Er; cbn [bind] in H; [|discriminate].
+    inversion H; subst ws. constructor; [exact Et|auto].
+  - destruct (parse_weights r) as [ws'|] eqn:Er; cbn [bind] in H; [|discriminate].
+    inversion H; subst ws. constructor; [exact I|auto].
+Qed.
+
+Lemma forall2_nth {A B} (R : A -> B -> Prop) l1 l2 i b :
+  Forall2 R l1 l2 -> nth_error l2 i = Some b -> exists a, nth_error l1 i = Some a /\ R a b.
+Proof.
+  intros H; revert i; induction H as [|x y l1 l2 Hxy H IH]; intros i Hi.
+  - destruct i; discriminate.
+  - destruct i as [|i]; cbn [nth_error] in *; [inversion Hi; subst; eauto|auto].
+Qed.
+
+Lemma forall2_length {A B} (R : A -> B -> Prop) l1 l2 : Forall2 R l1 l2 -> length l1 = length l2.
+Proof. induction 1; cbn [length]; congruence. Qed.
+
+Lemma map_fst_combine {A B} (l1 : list A) (l2 : list B) :
+  length l1 = length l2 -> map fst (combine l1 l2) = l1 /\ map snd (combine l1 l2) = l2.
+Proof.
+  revert l2; induction l1 as [|a r IH]; intros [|b r2] H; cbn [length] in H; try discriminate.
+  - split; reflexivity.
+  - cbn [combine map fst snd]. destruct (IH r2 ltac:(lia)) as (H1 & H2). rewrite H1, H2. split; reflexivity.
+Qed.
+
+Lemma zsum_pos_exists zs : Forall (fun z => 0 <= z) zs -> Exists (fun z => 0 < z) zs -> 0 < zsum zs.
+Proof.
+  intros Hall Hex. induction Hex as [z r Hz|z r Hex IH]; inversion Hall; subst; cbn [zsum fold_right].
+  - assert (0 <= zsum r); [|unfold zsum in *; lia].
+    clear -H2. induction H2; cbn [zsum fold_right]; [lia|]. unfold zsum in *. lia.
+  - specialize (IH H2). unfold zsum in *. lia.
+Qed.
+
+(* THE statement for a block: whatever the row (key k) and the draw, the pick is the item at some
+   position i whose probability text, as evaluated FOR THIS ROW, parses to a positive number *)
+Lemma block_row_support (b : block) k ds num den :
+  parse_weights (block_toks k b) = Ok (map Some ds) ->
+  Forall (fun d => 0 <= dnum d) ds -> Exists (fun d => 0 < dnum d) ds -> 0 <= num < den ->
+  exists i it e d o,
+    run_block b k (Some num) den = Ok o /\ nth_error b i = Some it /\ o = eval_pexpr k (snd it) /\
+    fst it = Some e /\ parse_weight_str (eval_wexpr k e) = Ok d /\ nth_error ds i = Some d /\ 0 < dnum d.
+Proof.
+  intros Hp Hall Hex Hnum.
+  pose proof (parse_weights_forall2 _ _ Hp) as HF.
+  pose proof (forall2_length _ _ _ HF) as Hlen.
+  unfold block_toks in Hlen. rewrite !map_length in Hlen.
+  unfold run_block, render_block. rewrite Hp. cbn [bind].
+  set (P := max_places (map Some ds)).
+  set (zs := map (scale_to P) ds).
+  assert (Hsw : scale_weights (map Some ds) = map Some zs).
+  { unfold scale_weights. fold P. subst zs. rewrite !map_map. reflexivity. }
+  rewrite Hsw.
+  set (labs := block_labels k b).
+  assert (Hl2 : length (map Some zs) = length labs).
+  { subst zs labs. unfold block_labels. rewrite !map_length. lia. }
+  destruct (map_fst_combine (map Some zs) labs Hl2) as (Hfst & Hsnd).
+  destruct (random_choice_support (RCChoices (combine (map Some zs) labs)) zs num den) as
+      (i & o & w & Hr & Ho & Hw & Hw0); try exact I; try assumption.
+  - cbn [rc_weights]. rewrite <- Hfst at 2. apply map_ext. intros [[p|] l]; reflexivity.
+  - subst zs. rewrite Forall_map. eapply Forall_impl; [|exact Hall].
+    intros d Hd. apply (scale_to_sign P d). assumption.
+  - apply zsum_pos_exists.
+    + subst zs. rewrite Forall_map. eapply Forall_impl; [|exact Hall].
+      intros d Hd. apply (scale_to_sign P d). assumption.
+    + subst zs. apply Exists_exists in Hex. destruct Hex as (d & Hin & Hd).
+      apply Exists_exists. exists (scale_to P d). split; [apply in_map; assumption|].
+      apply (scale_to_sign P d). assumption.
+  - cbn [rc_options] in Ho. rewrite Hsnd in Ho. subst labs. unfold block_labels in Ho.
+    rewrite nth_error_map in Ho.
+    destruct (nth_error b i) as [it|] eqn:Eit; cbn [option_map] in Ho; [|discriminate].
+    inversion Ho; subst o; clear Ho.
+    subst zs. rewrite nth_error_map in Hw.
+    destruct (nth_error ds i) as [d|] eqn:Ed; cbn [option_map] in Hw; [|discriminate].
+    inversion Hw; subst w; clear Hw.
+    assert (Hsd : nth_error (map Some ds) i = Some (Some d)) by (rewrite nth_error_map, Ed; reflexivity).
+    destruct (forall2_nth _ _ _ _ _ HF Hsd) as (t & Ht & Hpt).
+    unfold block_toks in Ht. rewrite nth_error_map, Eit in Ht. cbn [option_map] in Ht.
+    inversion Ht as [Ht']; clear Ht.
+    destruct (fst it) as [e|] eqn:Ee; cbn [option_map] in Ht'; subst t; cbn [tok_parsed] in Hpt; [|destruct Hpt].
+    exists i, it, e, d, (eval_pexpr k (snd it)).
+    repeat split; try assumption; try reflexivity.
+    apply (scale_to_sign P d). assumption.
+Qed.
+
+(* all the weight of the row on one item: that item's pick, for every draw *)
+Lemma block_row_single (b : block) k ds num den i0 :
+  parse_weights (block_toks k b) = Ok (map Some ds) ->
+  Forall (fun d => 0 <= dnum d) ds -> 0 <= num < den ->
+  (exists d, nth_error ds i0 = Some d /\ 0 < dnum d) ->
+  (forall j d, nth_error ds j = Some d -> 0 < dnum d -> j = i0) ->
+  exists it, nth_error b i0 = Some it /\ run_block b k (Some num) den = Ok (eval_pexpr k (snd it)).
+Proof.
+  intros Hp Hall Hnum (d0 & Hd0 & Hpos0) Huniq.
+  destruct (block_row_support b k ds num den Hp Hall) as (i & it & e & d & o & Hr & Hit & Ho & _ & _ & Hd & Hpos);
+    try assumption.
+  - apply Exists_exists. exists d0. split; [eapply nth_error_In; eassumption|assumption].
+  - rewrite (Huniq i d Hd Hpos) in Hit. exists it. split; [assumption|]. rewrite Hr, Ho. reflexivity.
+Qed.
+
+(* a literal probability is the same in every row; a formula is its table entry for the row *)
+Lemma eval_wexpr_literal k k' t : eval_wexpr k (WLit t) = eval_wexpr k' (WLit t).
+Proof. reflexivity. Qed.
+
+(* ------------------------------------------------------------------ the text of a weight *)
+
+Ltac ascii_cases c := destruct c as [[] [] [] [] [] [] [] []].
+
+Lemma digit_char_facts c :
+  is_digit c = true ->
+  sign_of c = None /\ is_blank c = false /\ is_pct c = false /\ is_point c = false /\
+  weight_char c = true /\ exists v, digit_val c = Some v /\ 0 <= v <= 9.
+Proof.
+  unfold is_digit. ascii_cases c; cbn; intros H; try discriminate H;
+    (repeat split; try reflexivity; eexists; split; [reflexivity|lia]).
+Qed.
+
+Lemma take_digits_app ds rest acc n :
+  all_digits ds = true ->
+  match rest with [] => True | c :: _ => is_digit c = false end ->
+  take_digits (ds ++ rest) acc n = (dval acc ds, (n + length ds)%nat, rest).
+Proof.
+  revert acc n; induction ds as [|c r IH]; intros acc n Hd Hrest.
+  - cbn [app dval length]. replace (n + 0)%nat with n by lia.
+    destruct rest as [|c r]; [reflexivity|]. cbn [take_digits]. unfold is_digit in Hrest.
+    destruct (digit_val c); [discriminate|reflexivity].
+  - cbn [all_digits forallb] in Hd. apply andb_true_iff in Hd. destruct Hd as (Hc & Hr).
+    cbn [app take_digits dval length]. unfold is_digit in Hc.
+    destruct (digit_val c) as [v|]; [|discriminate].
+    rewrite IH by assumption. f_equal. f_equal. lia.
+Qed.
+
+Lemma dval_app acc a b : all_digits a = true -> dval acc (a ++ b) = dval (dval acc a) b.
+Proof.
+  revert acc; induction a as [|c r IH]; intros acc H; [reflexivity|].
+  cbn [all_digits forallb] in H. apply andb_true_iff in H. destruct H as (Hc & Hr).
+  cbn [app dval]. unfold is_digit in Hc. destruct (digit_val c); [|discriminate]. apply IH. assumption.
+Qed.
+
+Lemma dval_nonneg acc cs : 0 <= acc -> 0 <= dval acc cs.
+Proof.
+  revert acc; induction cs as [|c r IH]; intros acc H; cbn [dval]; [assumption|].
+  destruct (digit_val c) as [v|] eqn:E; [|assumption]. apply IH.
+  assert (0 <= v).
+  { assert (Hd : is_digit c = true) by (unfold is_digit; rewrite E; reflexivity).
+    destruct (digit_char_facts c Hd) as (_ & _ & _ & _ & _ & v' & Hv' & Hb). rewrite E in Hv'. inversion Hv'. lia. }
+  lia.
+Qed.
+
+Lemma drop_while_all p t m : forallb p t = true -> drop_while p (t ++ m) = drop_while p m.
+Proof. induction t as [|c r IH]; intros H; [reflexivity|]. cbn [forallb] in H. apply andb_true_iff in H.
+  destruct H as (Hc & Hr). cbn [app drop_while]. rewrite Hc. auto. Qed.
+
+Lemma drop_while_none p m : forallb (fun c => negb (p c)) m = true -> drop_while p m = m.
+Proof. destruct m as [|c r]; [reflexivity|]. cbn [forallb drop_while]. intros H. apply andb_true_iff in H.
+  destruct H as (Hc & _). destruct (p c); [discriminate|reflexivity]. Qed.
+
+Lemma forallb_rev {A} (f : A -> bool) l : forallb f (rev l) = forallb f l.
+Proof.
+  induction l as [|x r IH]; [reflexivity|]. cbn [rev forallb]. rewrite forallb_app, IH. cbn [forallb].
+  rewrite andb_true_r. apply andb_comm.
+Qed.
+
+(* trailing p-characters go, the rest (which has none) stays *)
+Lemma rstrip_tail p l t :
+  forallb (fun c => negb (p c)) l = true -> forallb p t = true -> rstrip_chars p (l ++ t) = l.
+Proof.
+  intros Hl Ht. unfold rstrip_chars. rewrite rev_app_distr.
+  rewrite drop_while_all by (rewrite forallb_rev; assumption).
+  rewrite drop_while_none by (rewrite forallb_rev; assumption). apply rev_involutive.
+Qed.
+
+Lemma forallb_repeat {A} (f : A -> bool) x n : f x = true -> forallb f (repeat x n) = true.
+Proof. intros H. induction n; cbn [repeat forallb]; [reflexivity|]. rewrite H. assumption. Qed.
+
+Lemma forallb_impl {A} (f g : A -> bool) l : (forall x, f x = true -> g x = true) -> forallb f l = true -> forallb g l = true.
+Proof. intros H. induction l as [|x r IH]; cbn [forallb]; [auto|]. intros Hf. apply andb_true_iff in Hf.
+  destruct Hf as (Hx & Hr). rewrite (H x Hx). auto. Qed.
+
+(* the body of a decimal numeral: optional sign, integer digits, optionally a point and fraction digits *)
+Definition sign_text (sg : option bool) : list ascii :=
+  match sg with None => [] | Some true => ["+"%char] | Some false => ["-"%char] end.
+Definition sign_val (sg : option bool) : Z := match sg with Some false => -1 | _ => 1 end.
+Definition decimal_text (sg : option bool) (ip : list ascii) (fp : option (list ascii)) : list ascii :=
+  sign_text sg ++ ip ++ match fp with None => [] | Some f => "."%char :: f end.
+Definition fraction_digits (fp : option (list ascii)) : list ascii := match fp with None => [] | Some f => f end.
+
+Definition decimal_ok (ip : list ascii) (fp : option (list ascii)) : Prop :=
+  all_digits ip = true /\ all_digits (fraction_digits fp) = true /\ (ip ++ fraction_digits fp) <> [].
+
+Lemma decimal_text_chars sg ip fp :
+  decimal_ok ip fp ->
+  forallb weight_char (decimal_text sg ip fp) = true /\
+  forallb (fun c => negb (is_blank c)) (decimal_text sg ip fp) = true /\
+  forallb (fun c => negb (is_pct c)) (decimal_text sg ip fp) = true.
+Proof.
+  intros (Hi & Hf & _). unfold decimal_text.
+  assert (Hd : forall l, all_digits l = true ->
+             forallb weight_char l = true /\ forallb (fun c => negb (is_blank c)) l = true /\
+             forallb (fun c => negb (is_pct c)) l = true).
+  { intros l Hl. repeat split; (eapply forallb_impl; [|exact Hl]); intros c Hc;
+      destruct (digit_char_facts c Hc) as (_ & Hb & Hp & _ & Hw & _); rewrite ?Hb, ?Hp; auto. }
+  destruct (Hd ip Hi) as (A1 & A2 & A3). destruct (Hd _ Hf) as (B1 & B2 & B3).
+  rewrite !forallb_app, A1, A2, A3.
+  destruct sg as [[|]|], fp as [f|]; cbn [sign_text forallb fraction_digits] in *; rewrite ?B1, ?B2, ?B3; repeat split; reflexivity.
+Qed.
+
+Lemma parse_decimal_text a b sg ip fp :
+  decimal_ok ip fp ->
+  parse_decimal (repeat " "%char a ++ decimal_text sg ip fp ++ repeat " "%char b)
+  = Ok (mkDec (sign_val sg * dval 0 (ip ++ fraction_digits fp)) (length (fraction_digits fp))).
+Proof.
+  intros Hok. destruct (decimal_text_chars sg ip fp Hok) as (Hw & Hnb & _).
+  destruct Hok as (Hi & Hf & Hne).
+  unfold parse_decimal.
+  assert (Hall : forallb weight_char (repeat " "%char a ++ decimal_text sg ip fp ++ repeat " "%char b) = true).
+  { rewrite !forallb_app, Hw, !forallb_repeat by reflexivity. reflexivity. }
+  rewrite Hall. cbn [negb].
+  rewrite drop_while_all by (apply forallb_repeat; reflexivity).
+  assert (Hhead : drop_while is_blank (decimal_text sg ip fp ++ repeat " "%char b)
+                  = decimal_text sg ip fp ++ repeat " "%char b).
+  { destruct (decimal_text sg ip fp) as [|c r] eqn:E.
+    - exfalso. unfold decimal_text in E. destruct sg as [[|]|]; cbn [sign_text app] in E; try discriminate E.
+      destruct ip as [|x ip']; [|discriminate E]. destruct fp as [f|]; [discriminate E|].
+      cbn [fraction_digits app] in Hne. congruence.
+    - cbn [forallb] in Hnb. apply andb_true_iff in Hnb. destruct Hnb as (Hc & _).
+      cbn [app drop_while]. destruct (is_blank c); [discriminate|reflexivity]. }
+  rewrite Hhead.
+  rewrite rstrip_tail by (try assumption; apply forallb_repeat; reflexivity).
+  assert (Hbody : forall acc, take_digits (ip ++ match fp with None => [] | Some f => "."%char :: f end) acc 0
+                  = (dval acc ip, length ip, match fp with None => [] | Some f => "."%char :: f end)).
+  { intros acc. rewrite take_digits_app; [reflexivity|assumption|]. destruct fp; [reflexivity|exact I]. }
+  assert (Hfin : (let '(ip0, ni, r1) := take_digits (ip ++ match fp with None => [] | Some f => "."%char :: f end) 0 0 in
+           match r1 with
+           | [] => match ni with O => value_error | S _ => Ok (mkDec (sign_val sg * ip0) 0) end
+           | c :: r2 =>
+             if is_point c then
+               let '(fp0, nf, r3) := take_digits r2 ip0 0 in
+               match r3 with
+               | [] => match (ni + nf)%nat with O => value_error | S _ => Ok (mkDec (sign_val sg * fp0) nf) end
+               | _ :: _ => value_error
+               end
+             else value_error
+           end) = Ok (mkDec (sign_val sg * dval 0 (ip ++ fraction_digits fp)) (length (fraction_digits fp)))).
+  { rewrite Hbody. destruct fp as [f|]; cbn [fraction_digits] in *.
+    - cbn [is_point]. replace f with (f ++ []) at 1 by apply app_nil_r.
+      rewrite take_digits_app by (try assumption; exact I). cbn [Nat.add].
+      rewrite dval_app by assumption.
+      destruct (length ip + length f)%nat eqn:El; [|reflexivity].
+      exfalso. apply Hne. destruct ip; [|cbn in El; lia]. destruct f; [|cbn in El; lia]. reflexivity.
+    - rewrite app_nil_r in *. destruct ip as [|c r]; [congruence|]. reflexivity. }
+  unfold decimal_text.
+  destruct sg as [[|]|]; cbn [sign_text app sign_of sign_val] in *; try exact Hfin.
+  (* no sign: the first character is a digit or the point *)
+  destruct ip as [|c r].
+  - destruct fp as [f|]; [|cbn [fraction_digits app] in Hne; congruence]. cbn [app sign_of]. exact Hfin.
+  - cbn [all_digits forallb] in Hi. apply andb_true_iff in Hi. destruct Hi as (Hc & _).
+    destruct (digit_char_facts c Hc) as (Hs & _). cbn [app]. rewrite Hs. exact Hfin.
+Qed.
+
+(* probability written as a string: trailing '%' characters are dropped (rstrip), blanks around the
+   numeral are accepted by float() *)
+Lemma parse_weight_str_text a b k sg ip fp :
+  decimal_ok ip fp ->
+  parse_weight_str (WStr (string_of_list_ascii
+     (repeat " "%char a ++ decimal_text sg ip fp ++ repeat " "%char b ++ repeat "%"%char k)))
+  = Ok (mkDec (sign_val sg * dval 0 (ip ++ fraction_digits fp)) (length (fraction_digits fp))).
+Proof.
+  intros Hok. cbn [parse_weight_str]. unfold chars. rewrite list_ascii_of_string_of_list_ascii.
+  replace (repeat " "%char a ++ decimal_text sg ip fp ++ repeat " "%char b ++ repeat "%"%char k)
+    with ((repeat " "%char a ++ decimal_text sg ip fp ++ repeat " "%char b) ++ repeat "%"%char k)
+    by (rewrite <- !app_assoc; reflexivity).
+  rewrite rstrip_tail.
+  - apply parse_decimal_text. assumption.
+  - destruct (decimal_text_chars sg ip fp Hok) as (_ & _ & Hp).
+    rewrite !forallb_app, Hp, !forallb_repeat by reflexivity. reflexivity.
+  - apply forallb_repeat. reflexivity.
+Qed.
+
+(* written as a YAML / Python float *)
+Lemma parse_weight_flt_text sg ip fp :
+  decimal_ok ip fp ->
+  parse_weight_str (WFlt (string_of_list_ascii (decimal_text sg ip fp)))
+  = Ok (mkDec (sign_val sg * dval 0 (ip ++ fraction_digits fp)) (length (fraction_digits fp))).
+Proof.
+  intros Hok. cbn [parse_weight_str]. unfold chars. rewrite list_ascii_of_string_of_list_ascii.
+  pose proof (parse_decimal_text 0 0 sg ip fp Hok) as H. cbn [repeat app] in H. rewrite app_nil_r in H. exact H.
+Qed.
+
+(* ------------------------------------------------------------------ relative bounds: -30d, +1y, -2w+3h *)
+
+(* the text of one group: sign, digits, unit letter *)
+Definition group_text (neg : bool) (ds : list ascii) (u : ascii) : list ascii :=
+  (if neg then "-"%char else "+"%char) :: ds ++ [u].
+Definition group_val (neg : bool) (ds : list ascii) : Z := (if neg then -1 else 1) * dval 0 ds.
+
+(* one optional group per unit: None = absent *)
+Definition group_slot := option (bool * list ascii).
+Definition slot_ok (g : group_slot) : Prop :=
+  match g with None => True | Some (_, ds) => all_digits ds = true /\ ds <> [] end.
+Fixpoint rel_text (us : list ascii) (gs : list group_slot) : list ascii :=
+  match us, gs with
+  | u :: us', Some (neg, ds) :: gs' => group_text neg ds u ++ rel_text us' gs'
+  | _ :: us', None :: gs' => rel_text us' gs'
+  | _, _ => []
+  end.
+Definition slot_val (g : group_slot) : option Z :=
+  match g with None => None | Some (neg, ds) => Some (group_val neg ds) end.
+
+Lemma rel_group_match u neg ds rest :
+  all_digits ds = true -> ds <> [] -> is_digit u = false ->
+  rel_group u (group_text neg ds u ++ rest) = (Some (group_val neg ds), rest).
+Proof.
+  intros Hd Hne Hu. unfold group_text, rel_group. cbn [app].
+  replace (sign_of (if neg then "-"%char else "+"%char)) with (Some (if neg then -1 else 1))
+    by (destruct neg; reflexivity).
+  rewrite <- app_assoc. rewrite take_digits_app by (try assumption; exact Hu).
+  destruct ds as [|c r]; [congruence|]. cbn [length Nat.add app].
+  rewrite Ascii.eqb_refl. reflexivity.
+Qed.
+
+Lemma rel_group_other u neg ds u' rest :
+  all_digits ds = true -> is_digit u' = false -> u' <> u ->
+  rel_group u (group_text neg ds u' ++ rest) = (None, group_text neg ds u' ++ rest).
+Proof.
+  intros Hd Hu' Hneq. unfold group_text, rel_group. cbn [app].
+  replace (sign_of (if neg then "-"%char else "+"%char)) with (Some (if neg then -1 else 1))
+    by (destruct neg; reflexivity).
+  rewrite <- app_assoc. rewrite take_digits_app by (try assumption; exact Hu').
+  destruct (0 + length ds)%nat; [reflexivity|]. cbn [app].
+  destruct (Ascii.eqb u' u) eqn:E; [apply Ascii.eqb_eq in E; congruence|reflexivity].
+Qed.
+
+(* the text of the remaining groups is empty or starts with the group of one of the remaining units *)
+Lemma rel_text_head us gs :
+  Forall slot_ok gs ->
+  rel_text us gs = [] \/
+  exists neg ds u rest, In u us /\ all_digits ds = true /\ rel_text us gs = group_text neg ds u ++ rest.
+Proof.
+  revert gs; induction us as [|u us' IH]; intros gs Hok; [left; destruct gs; reflexivity|].
+  destruct gs as [|[[neg ds]|] gs']; [left; reflexivity| |]; inversion Hok; subst; cbn [rel_text].
+  - right. exists neg, ds, u, (rel_text us' gs'). destruct H1. repeat split; [left; reflexivity|assumption].
+  - destruct (IH gs' H2) as [H|(neg & ds & u' & rest & Hin & Hd & Ht)]; [left; assumption|].
+    right. exists neg, ds, u', rest. repeat split; [right; assumption|assumption|assumption].
+Qed.
+
+Lemma rel_groups_text us gs :
+  NoDup us -> Forall (fun u => is_digit u = false) us -> Forall slot_ok gs -> length gs = length us ->
+  rel_groups us (rel_text us gs) = (map slot_val gs, []).
+Proof.
+  revert gs; induction us as [|u us' IH]; intros gs Hnd Hus Hok Hlen.
+  - destruct gs; [reflexivity|discriminate].
+  - destruct gs as [|g gs']; [discriminate|]. cbn [length] in Hlen.
+    inversion Hnd; subst. inversion Hus; subst. inversion Hok; subst.
+    cbn [rel_groups map]. destruct g as [[neg ds]|]; cbn [rel_text slot_val].
+    + destruct H5 as (Hd & Hne). rewrite rel_group_match by assumption.
+      rewrite IH by (try assumption; lia). reflexivity.
+    + assert (Hskip : rel_group u (rel_text us' gs') = (None, rel_text us' gs')).
+      { destruct (rel_text_head us' gs' H6) as [->|(neg & ds & u' & rest & Hin & Hd & ->)]; [reflexivity|].
+        apply rel_group_other; [assumption| |intros ->; contradiction].
+        rewrite Forall_forall in H4. apply H4. assumption. }
+      rewrite Hskip. rewrite IH by (try assumption; lia). reflexivity.
+Qed.
+
+Lemma rel_units_facts : NoDup rel_units /\ Forall (fun u => is_digit u = false) rel_units.
+Proof.
+  split.
+  - unfold rel_units. repeat constructor; cbn [In]; intros H;
+      repeat (destruct H as [H|H]; [discriminate H|]); exact H.
+  - unfold rel_units. repeat constructor.
+Qed.
+
+(* regex.fullmatch on a well-formed relative bound: every written group is read as sign * digits *)
+Lemma parse_rel_text gs :
+  Forall slot_ok gs -> length gs = 7%nat -> parse_rel (rel_text rel_units gs) = Some (map slot_val gs).
+Proof.
+  intros Hok Hlen. unfold parse_rel. destruct rel_units_facts as (Hnd & Hus).
+  rewrite rel_groups_text by assumption. reflexivity.
+Qed.
+
+Definition slot_z (g : group_slot) : Z := match slot_val g with Some v => v | None => 0 end.
+
+Lemma spec_of_text_relative g0 g1 g2 g3 g4 g5 g6 :
+  Forall slot_ok [g0; g1; g2; g3; g4; g5; g6] ->
+  rel_text rel_units [g0; g1; g2; g3; g4; g5; g6] <> [] ->
+  spec_of_text (string_of_list_ascii (rel_text rel_units [g0; g1; g2; g3; g4; g5; g6]))
+  = SRel (slot_z g0) (slot_z g1) (slot_z g2) (slot_z g3) (slot_z g4) (slot_z g5) (slot_z g6).
+Proof.
+  intros Hok Hne. unfold spec_of_text, chars. rewrite list_ascii_of_string_of_list_ascii.
+  pose proof (parse_rel_text _ Hok eq_refl) as Hp.
+  destruct (rel_text_head rel_units _ Hok) as [H|(neg & ds & u & rest & _ & _ & Ht)]; [congruence|].
+  rewrite Ht in Hp |- *. unfold group_text in Hp |- *. cbn [app] in Hp |- *.
+  assert (Hnow : forall t, String.eqb (string_of_list_ascii ((if neg then "-"%char else "+"%char) :: t)) "now" = false)
+    by (intros t; destruct neg; reflexivity).
+  assert (Htoday : forall t, String.eqb (string_of_list_ascii ((if neg then "-"%char else "+"%char) :: t)) "today" = false)
+    by (intros t; destruct neg; reflexivity).
+  rewrite Hnow, Htoday, Hp. reflexivity.
+Qed.
+
+(* monotone: a larger count of any unit is a later instant / day (years = 365.24 d, months = 30.42 d) *)
+Lemma rel_seconds_mono y mo w d h mi s y' mo' w' d' h' mi' s' :
+  y <= y' -> mo <= mo' -> w <= w' -> d <= d' -> h <= h' -> mi <= mi' -> s <= s' ->
+  rel_seconds y mo w d h mi s <= rel_seconds y' mo' w' d' h' mi' s' /\
+  rel_days y mo w d h mi s <= rel_days y' mo' w' d' h' mi' s'.
+Proof.
+  intros. assert (rel_seconds y mo w d h mi s <= rel_seconds y' mo' w' d' h' mi' s') by (unfold rel_seconds; lia).
+  split; [assumption|]. unfold rel_days, DAY. apply Z.div_le_mono; lia.
+Qed.
+
+(* ------------------------------------------------------------------ calendar days *)
+
+Definition leaps (y : Z) : Z := y / 4 - y / 100 + y / 400.
+
+Lemma leaps_step y :
+  leaps (y + 1) - leaps y = if is_leap (y + 1) then 1 else 0.
+Proof.
+  unfold leaps, is_leap.
+  destruct ((y + 1) mod 4 =? 0) eqn:E4; destruct ((y + 1) mod 100 =? 0) eqn:E100;
+    destruct ((y + 1) mod 400 =? 0) eqn:E400; cbn [negb andb orb];
+    rewrite ?Z.eqb_eq, ?Z.eqb_neq in *; Z.div_mod_to_equations; lia.
+Qed.
+
+Lemma leaps_mono a b : a <= b -> leaps a <= leaps b.
+Proof.
+  intros H. replace b with (a + Z.of_nat (Z.to_nat (b - a))) by lia.
+  induction (Z.to_nat (b - a)) as [|n IH]; [replace (a + Z.of_nat 0) with a by lia; lia|].
+  replace (a + Z.of_nat (S n)) with (a + Z.of_nat n + 1) by lia.
+  pose proof (leaps_step (a + Z.of_nat n)) as Hs.
+  destruct (is_leap (a + Z.of_nat n + 1)); lia.
+Qed.
+
+(* first day-of-year (counted from 1 March) of each month *)
+Definition month_start (m : Z) : Z := (153 * ((m + 9) mod 12) + 2) / 5.
+Definition march_year (y m : Z) : Z := if m <=? 2 then y - 1 else y.
+
+Lemma days_of_civil_formula y m d :
+  days_of_civil y m d = 365 * march_year y m + leaps (march_year y m) + month_start m + d - 719469.
+Proof.
+  unfold days_of_civil, month_start, march_year, leaps.
+  set (y' := if m <=? 2 then y - 1 else y). clearbody y'.
+  set (g := (153 * ((m + 9) mod 12) + 2) / 5). clearbody g.
+  Z.div_mod_to_equations. lia.
+Qed.
+
+Definition valid_md (y m d : Z) : Prop := 1 <= m <= 12 /\ 1 <= d <= days_in_month y m.
+
+Lemma month_cases m : 1 <= m <= 12 ->
+  m = 1 \/ m = 2 \/ m = 3 \/ m = 4 \/ m = 5 \/ m = 6 \/ m = 7 \/ m = 8 \/ m = 9 \/ m = 10 \/ m = 11 \/ m = 12.
+Proof. lia. Qed.
+
+Ltac month_split H :=
+  let H' := fresh in
+  pose proof (month_cases _ H) as H';
+  repeat (destruct H' as [H'|H']; [subst|]); [..|subst].
+
+(* evaluate the month-dependent parts for a concrete month, leaving the year alone *)
+Ltac closed_month :=
+  repeat match goal with
+  | |- context [month_start ?m] =>
+    let v := eval vm_compute in (month_start m) in change (month_start m) with v
+  | |- context [march_year ?y ?m] =>
+    let b := eval vm_compute in (m <=? 2) in
+    match b with
+    | true => change (march_year y m) with (y - 1)
+    | false => change (march_year y m) with y
+    end
+  | |- context [days_in_month ?y ?m] =>
+    let b := eval vm_compute in (m =? 2) in
+    match b with
+    | true => change (days_in_month y m) with (if is_leap y then 29 else 28)
+    | false => let v := eval vm_compute in (days_in_month 0 m) in change (days_in_month y m) with v
+    end
+  end.
+
+(* the next day of the calendar is the next day number *)
+Lemma days_of_civil_next y m d :
+  valid_md y m d ->
+  (d < days_in_month y m -> days_of_civil y m (d + 1) = days_of_civil y m d + 1) /\
+  (d = days_in_month y m -> m < 12 -> days_of_civil y (m + 1) 1 = days_of_civil y m d + 1) /\
+  (d = days_in_month y m -> m = 12 -> days_of_civil (y + 1) 1 1 = days_of_civil y m d + 1).
+Proof.
+  intros (Hm & Hd). rewrite !days_of_civil_formula. split; [|split].
+  - intros _. lia.
+  - intros -> Hlt. clear Hd.
+    pose proof (leaps_step (y - 1)) as Hs. replace (y - 1 + 1) with y in Hs by lia.
+    month_split Hm; try lia; closed_month; try lia; destruct (is_leap y); lia.
+  - intros -> ->. closed_month. replace (y + 1 - 1) with y by lia. lia.
+Qed.
+
+Definition ymd_lt (y m d y' m' d' : Z) : Prop :=
+  y < y' \/ (y = y' /\ (m < m' \/ (m = m' /\ d < d'))).
+
+Lemma days_in_month_bounds y m : 28 <= days_in_month y m <= 31.
+Proof. unfold days_in_month. destruct (m =? 2); [destruct (is_leap y); lia|].
+  destruct ((m =? 4) || (m =? 6) || (m =? 9) || (m =? 11)); lia. Qed.
+
+(* within one year *)
+Lemma days_of_civil_mono_year y m d m' d' :
+  valid_md y m d -> valid_md y m' d' -> m < m' -> days_of_civil y m d < days_of_civil y m' d'.
+Proof.
+  intros (Hm & Hd) (Hm' & Hd') Hlt. rewrite !days_of_civil_formula.
+  pose proof (leaps_step (y - 1)) as Hs. replace (y - 1 + 1) with y in Hs by lia.
+  assert (Hd1 : 1 <= d') by lia. clear Hd'.
+  month_split Hm; month_split Hm'; try lia; closed_month; revert Hd; closed_month; intros Hd;
+    try lia; destruct (is_leap y); lia.
+Qed.
+
+Lemma days_of_civil_year_bounds y m d :
+  valid_md y m d -> days_of_civil y 1 1 <= days_of_civil y m d < days_of_civil (y + 1) 1 1.
+Proof.
+  intros Hv. assert (Hjan : valid_md y 1 1) by (split; [lia|pose proof (days_in_month_bounds y 1); lia]).
+  split.
+  - destruct Hv as (Hm & Hd). destruct (Z.eq_dec m 1) as [->|Hne].
+    + rewrite !days_of_civil_formula. lia.
+    + apply Z.lt_le_incl. apply days_of_civil_mono_year; try assumption; [split; assumption|lia].
+  - assert (Hdec : valid_md y 12 31) by (split; [lia|closed_month; lia]).
+    destruct (days_of_civil_next y 12 31 Hdec) as (_ & _ & Hn).
+    rewrite (Hn eq_refl eq_refl).
+    destruct Hv as (Hm & Hd). destruct (Z.eq_dec m 12) as [->|Hne].
+    + rewrite !days_of_civil_formula. revert Hd. closed_month. lia.
+    + assert (days_of_civil y m d < days_of_civil y 12 31); [|lia].
+      apply days_of_civil_mono_year; try assumption; [split; assumption|lia].
+Qed.
+
+Lemma days_of_civil_jan1_mono y y' : y <= y' -> days_of_civil y 1 1 <= days_of_civil y' 1 1.
+Proof.
+  intros H. rewrite !days_of_civil_formula. closed_month.
+  pose proof (leaps_mono (y - 1) (y' - 1) ltac:(lia)). lia.
+Qed.
+
+(* the day number is strictly increasing in the calendar order of valid dates (any year) *)
+Lemma days_of_civil_mono y m d y' m' d' :
+  valid_md y m d -> valid_md y' m' d' -> ymd_lt y m d y' m' d' ->
+  days_of_civil y m d < days_of_civil y' m' d'.
+Proof.
+  intros Hv Hv' [Hy|(-> & [Hm|(-> & Hd)])].
+  - pose proof (days_of_civil_year_bounds y m d Hv). pose proof (days_of_civil_year_bounds y' m' d' Hv').
+    pose proof (days_of_civil_jan1_mono (y + 1) y' ltac:(lia)). lia.
+  - apply days_of_civil_mono_year; assumption.
+  - rewrite !days_of_civil_formula. lia.
+Qed.
+
+Lemma days_of_civil_epoch : days_of_civil 1970 1 1 = 0 /\ days_of_civil 2000 3 1 = 11017 /\ days_of_civil 1 1 1 = -719162.
+Proof. vm_compute. repeat split. Qed.
+
+(* ------------------------------------------------------------------ ISO 8601 texts *)
+
+Lemma take_n_digits_app n ds rest acc :
+  all_digits ds = true -> length ds = n -> take_n_digits n (ds ++ rest) acc = Some (dval acc ds, rest).
+Proof.
+  revert ds acc; induction n as [|n IH]; intros ds acc Hd Hl.
+  - destruct ds; [reflexivity|discriminate].
+  - destruct ds as [|c r]; [discriminate|]. cbn [length] in Hl.
+    cbn [all_digits forallb] in Hd. apply andb_true_iff in Hd. destruct Hd as (Hc & Hr).
+    cbn [app take_n_digits dval]. unfold is_digit in Hc. destruct (digit_val c); [|discriminate].
+    apply IH; [assumption|lia].
+Qed.
+
+Lemma expect_char_hit c r : expect_char c (c :: r) = Some r.
+Proof. unfold expect_char. rewrite Ascii.eqb_refl. reflexivity. Qed.
+
+(* YYYY-MM-DD followed by tail *)
+Definition iso_date_text (y4 m2 d2 tail : list ascii) : list ascii :=
+  y4 ++ "-"%char :: m2 ++ "-"%char :: d2 ++ tail.
+
+Definition fields_ok (l : list (list ascii * nat)) : Prop :=
+  Forall (fun p => all_digits (fst p) = true /\ length (fst p) = snd p) l.
+
+Lemma parse_iso_date y4 m2 d2 :
+  fields_ok [(y4, 4%nat); (m2, 2%nat); (d2, 2%nat)] ->
+  parse_iso (iso_date_text y4 m2 d2 [])
+  = if valid_date (dval 0 y4) (dval 0 m2) (dval 0 d2)
+    then IsoD (days_of_civil (dval 0 y4) (dval 0 m2) (dval 0 d2)) else IsoBad.
+Proof.
+  intros H. inversion H as [|? ? (Hy & Hyl) H1]; subst. inversion H1 as [|? ? (Hm & Hml) H2]; subst.
+  inversion H2 as [|? ? (Hd & Hdl) _]; subst. cbn [fst snd] in *.
+  unfold parse_iso, iso_date_text.
+  rewrite (take_n_digits_app 4 y4) by assumption. cbn [obind]. rewrite expect_char_hit. cbn [obind].
+  rewrite (take_n_digits_app 2 m2) by assumption. cbn [obind]. rewrite expect_char_hit. cbn [obind].
+  rewrite (take_n_digits_app 2 d2) by assumption. cbn [obind]. reflexivity.
+Qed.
+
+(* the fraction of a second and the zone as they may follow HH:MM:SS *)
+Inductive zone_spec := ZNone | ZZulu | ZOff (neg : bool) (h2 m2 : list ascii).
+Definition zone_text (z : zone_spec) : list ascii :=
+  match z with
+  | ZNone => []
+  | ZZulu => ["Z"%char]
+  | ZOff neg h2 m2 => (if neg then "-"%char else "+"%char) :: h2 ++ ":"%char :: m2
+  end.
+Definition zone_val (z : zone_spec) : option Z :=
+  match z with
+  | ZNone => None
+  | ZZulu => Some 0
+  | ZOff neg h2 m2 => Some ((if neg then -1 else 1) * (dval 0 h2 * 3600 + dval 0 m2 * 60))
+  end.
+Definition zone_ok (z : zone_spec) : Prop :=
+  match z with
+  | ZOff _ h2 m2 => fields_ok [(h2, 2%nat); (m2, 2%nat)] /\ dval 0 h2 < 24 /\ dval 0 m2 < 60
+  | _ => True
+  end.
+Definition frac_text (f : option (list ascii)) : list ascii :=
+  match f with None => [] | Some ds => "."%char :: ds end.
+Definition frac_val (f : option (list ascii)) : Z :=
+  match f with None => 0 | Some ds => dval 0 ds * pow10 (6 - length ds) end.
+Definition frac_ok (f : option (list ascii)) : Prop :=
+  match f with None => True | Some ds => all_digits ds = true /\ (1 <= length ds <= 6)%nat end.
+
+Lemma zone_text_head z : match zone_text z with [] => True | c :: _ => is_digit c = false /\ is_point c = false end.
+Proof. destruct z as [| |[|] h m]; cbn; auto. Qed.
+
+Lemma parse_zone_text z : zone_ok z -> parse_zone (zone_text z) = Some (zone_val z).
+Proof.
+  destruct z as [| |neg h2 m2]; [reflexivity|reflexivity|]. intros (Hf & Hh & Hm).
+  inversion Hf as [|? ? (Hhd & Hhl) H1]; subst. inversion H1 as [|? ? (Hmd & Hml) _]; subst. cbn [fst snd] in *.
+  unfold zone_text, zone_val, parse_zone.
+  assert (Hs : sign_of (if neg then "-"%char else "+"%char) = Some (if neg then -1 else 1)) by (destruct neg; reflexivity).
+  assert (Hz : forall (A : Type) (r : list ascii) (x y : A),
+             match (if neg then "-"%char else "+"%char) :: r with ["Z"%char] => x | _ => y end = y).
+  { intros A r x y. destruct neg; reflexivity. }
+  destruct neg.
+  - cbn [sign_of obind]. rewrite (take_n_digits_app 2 h2) by assumption. cbn [obind].
+    rewrite expect_char_hit. cbn [obind].
+    replace m2 with (m2 ++ []) at 1 by apply app_nil_r.
+    rewrite (take_n_digits_app 2 m2) by assumption. cbn [obind].
+    replace ((dval 0 h2 <? 24) && (dval 0 m2 <? 60)) with true by lia. reflexivity.
+  - cbn [sign_of obind]. rewrite (take_n_digits_app 2 h2) by assumption. cbn [obind].
+    rewrite expect_char_hit. cbn [obind].
+    replace m2 with (m2 ++ []) at 1 by apply app_nil_r.
+    rewrite (take_n_digits_app 2 m2) by assumption. cbn [obind].
+    replace ((dval 0 h2 <? 24) && (dval 0 m2 <? 60)) with true by lia. reflexivity.
+Qed.
+
+Lemma parse_fraction_text f z :
+  frac_ok f -> parse_fraction (frac_text f ++ zone_text z) = Some (frac_val f, zone_text z).
+Proof.
+  destruct f as [ds|]; cbn [frac_text frac_val frac_ok app].
+  - intros (Hd & Hl). unfold parse_fraction. cbn [is_point].
+    rewrite take_digits_app; [|assumption|].
+    + cbn [Nat.add]. replace ((1 <=? length ds)%nat && (length ds <=? 6)%nat) with true; [reflexivity|].
+      symmetry. apply andb_true_iff. split; apply Nat.leb_le; lia.
+    + pose proof (zone_text_head z). destruct (zone_text z); [exact I|tauto].
+  - intros _. unfold parse_fraction. pose proof (zone_text_head z) as H.
+    destruct (zone_text z) as [|c r]; [reflexivity|]. destruct H as (_ & ->). reflexivity.
+Qed.
+
+Definition iso_time_text (sep : ascii) (h2 mi2 s2 : list ascii) (f : option (list ascii)) (z : zone_spec) : list ascii :=
+  sep :: h2 ++ ":"%char :: mi2 ++ ":"%char :: s2 ++ frac_text f ++ zone_text z.
+
+(* a full date-time: the reading is the civil day number and the time of day, the offset as written *)
+Lemma parse_iso_datetime y4 m2 d2 sep h2 mi2 s2 f z :
+  fields_ok [(y4, 4%nat); (m2, 2%nat); (d2, 2%nat); (h2, 2%nat); (mi2, 2%nat); (s2, 2%nat)] ->
+  is_sep sep = true -> frac_ok f -> zone_ok z ->
+  parse_iso (iso_date_text y4 m2 d2 (iso_time_text sep h2 mi2 s2 f z))
+  = if valid_date (dval 0 y4) (dval 0 m2) (dval 0 d2) && valid_time (dval 0 h2) (dval 0 mi2) (dval 0 s2)
+    then IsoS (mkStamp ((days_of_civil (dval 0 y4) (dval 0 m2) (dval 0 d2) * DAY
+                         + dval 0 h2 * 3600 + dval 0 mi2 * 60 + dval 0 s2) * US + frac_val f) (zone_val z))
+    else IsoBad.
+Proof.
+  intros H Hsep Hf Hz.
+  inversion H as [|? ? (Hy & Hyl) H1]; subst. inversion H1 as [|? ? (Hm & Hml) H2]; subst.
+  inversion H2 as [|? ? (Hd & Hdl) H3]; subst. inversion H3 as [|? ? (Hh & Hhl) H4]; subst.
+  inversion H4 as [|? ? (Hmi & Hmil) H5]; subst. inversion H5 as [|? ? (Hs & Hsl) _]; subst.
+  cbn [fst snd] in *.
+  unfold parse_iso, iso_date_text, iso_time_text.
+  rewrite (take_n_digits_app 4 y4) by assumption. cbn [obind]. rewrite expect_char_hit. cbn [obind].
+  rewrite (take_n_digits_app 2 m2) by assumption. cbn [obind]. rewrite expect_char_hit. cbn [obind].
+  rewrite (take_n_digits_app 2 d2) by assumption. cbn [obind].
+  rewrite Hsep. cbn [negb].
+  rewrite (take_n_digits_app 2 h2) by assumption. cbn [obind]. rewrite expect_char_hit. cbn [obind].
+  rewrite (take_n_digits_app 2 mi2) by assumption. cbn [obind]. rewrite expect_char_hit. cbn [obind].
+  rewrite (take_n_digits_app 2 s2) by assumption. cbn [obind].
+  rewrite parse_fraction_text by assumption. cbn [obind].
+  rewrite parse_zone_text by assumption. cbn [obind]. reflexivity.
+Qed.
+
+Lemma digit_not_keyword c r :
+  is_digit c = true ->
+  String.eqb (string_of_list_ascii (c :: r)) "now" = false /\
+  String.eqb (string_of_list_ascii (c :: r)) "today" = false.
+Proof.
+  intros H. cbn [string_of_list_ascii]. unfold is_digit in H.
+  ascii_cases c; cbn in H; try discriminate H; split; reflexivity.
+Qed.
+
+Lemma rel_groups_no_sign us c r : sign_of c = None -> rel_groups us (c :: r) = (map (fun _ => None) us, c :: r).
+Proof.
+  intros Hs. induction us as [|u us' IH]; [reflexivity|].
+  cbn [rel_groups map]. unfold rel_group at 1. rewrite Hs. rewrite IH. reflexivity.
+Qed.
+
+Lemma parse_rel_digit_first c r : is_digit c = true -> parse_rel (c :: r) = None.
+Proof.
+  intros H. destruct (digit_char_facts c H) as (Hs & _).
+  unfold parse_rel. rewrite rel_groups_no_sign by assumption. reflexivity.
+Qed.
+
+Lemma spec_of_text_digit_first c r :
+  is_digit c = true ->
+  spec_of_text (string_of_list_ascii (c :: r))
+  = match parse_iso (c :: r) with IsoD d => SDate d | IsoS s => SStamp s | IsoBad => SBad | IsoUnsup => SUnsup end.
+Proof.
+  intros H. unfold spec_of_text. destruct (digit_not_keyword c r H) as (-> & ->).
+  unfold chars. rewrite list_ascii_of_string_of_list_ascii. rewrite parse_rel_digit_first by assumption.
+  reflexivity.
+Qed.
+
+Lemma iso_date_text_head y4 m2 d2 tail :
+  all_digits y4 = true -> length y4 = 4%nat ->
+  exists c r, iso_date_text y4 m2 d2 tail = c :: r /\ is_digit c = true.
+Proof.
+  intros Hd Hl. destruct y4 as [|c r]; [discriminate|]. exists c, (r ++ "-"%char :: m2 ++ "-"%char :: d2 ++ tail).
+  split; [reflexivity|]. cbn [all_digits forallb] in Hd. apply andb_true_iff in Hd. tauto.
+Qed.
+
+(* a date bound written YYYY-MM-DD denotes that day of the calendar *)
+Lemma spec_of_text_date y4 m2 d2 :
+  fields_ok [(y4, 4%nat); (m2, 2%nat); (d2, 2%nat)] ->
+  valid_date (dval 0 y4) (dval 0 m2) (dval 0 d2) = true ->
+  spec_of_text (string_of_list_ascii (iso_date_text y4 m2 d2 []))
+  = SDate (days_of_civil (dval 0 y4) (dval 0 m2) (dval 0 d2)).
+Proof.
+  intros H Hv. pose proof (parse_iso_date y4 m2 d2 H) as Hp.
+  inversion H as [|? ? (Hy & Hyl) _]; subst. cbn [fst snd] in *.
+  destruct (iso_date_text_head y4 m2 d2 [] Hy Hyl) as (c & r & Ht & Hc).
+  rewrite Ht in *. rewrite spec_of_text_digit_first by assumption. rewrite Hp, Hv. reflexivity.
+Qed.
+
+(* a datetime bound written in ISO form denotes that reading of the clock at that UTC offset *)
+Lemma spec_of_text_datetime y4 m2 d2 sep h2 mi2 s2 f z :
+  fields_ok [(y4, 4%nat); (m2, 2%nat); (d2, 2%nat); (h2, 2%nat); (mi2, 2%nat); (s2, 2%nat)] ->
+  is_sep sep = true -> frac_ok f -> zone_ok z ->
+  valid_date (dval 0 y4) (dval 0 m2) (dval 0 d2) = true ->
+  valid_time (dval 0 h2) (dval 0 mi2) (dval 0 s2) = true ->
+  spec_of_text (string_of_list_ascii (iso_date_text y4 m2 d2 (iso_time_text sep h2 mi2 s2 f z)))
+  = SStamp (mkStamp ((days_of_civil (dval 0 y4) (dval 0 m2) (dval 0 d2) * DAY
+                      + dval 0 h2 * 3600 + dval 0 mi2 * 60 + dval 0 s2) * US + frac_val f) (zone_val z)).
+Proof.
+  intros H Hsep Hf Hz Hv Ht.
+  pose proof (parse_iso_datetime y4 m2 d2 sep h2 mi2 s2 f z H Hsep Hf Hz) as Hp.
+  inversion H as [|? ? (Hy & Hyl) _]; subst. cbn [fst snd] in *.
+  destruct (iso_date_text_head y4 m2 d2 (iso_time_text sep h2 mi2 s2 f z) Hy Hyl) as (c & r & Hx & Hc).
+  rewrite Hx in *. rewrite spec_of_text_digit_first by assumption. rewrite Hp, Hv, Ht. reflexivity.
+Qed.
+
+(* the instant such a bound denotes for datetime_between: reading minus offset; naive = UTC *)
+Lemma datetime_text_instant c y4 m2 d2 sep h2 mi2 s2 f z :
+  fields_ok [(y4, 4%nat); (m2, 2%nat); (d2, 2%nat); (h2, 2%nat); (mi2, 2%nat); (s2, 2%nat)] ->
+  is_sep sep = true -> frac_ok f -> zone_ok z ->
+  valid_date (dval 0 y4) (dval 0 m2) (dval 0 d2) = true ->
+  valid_time (dval 0 h2) (dval 0 mi2) (dval 0 s2) = true ->
+  exists ps,
+    parse_datetimespec c (spec_of_text (string_of_list_ascii
+       (iso_date_text y4 m2 d2 (iso_time_text sep h2 mi2 s2 f z)))) = Ok ps /\
+    instant ps = (days_of_civil (dval 0 y4) (dval 0 m2) (dval 0 d2) * DAY
+                  + dval 0 h2 * 3600 + dval 0 mi2 * 60 + dval 0 s2) * US + frac_val f
+                 - match zone_val z with Some o => o * US | None => 0 end.
+Proof.
+  intros. rewrite spec_of_text_datetime by assumption.
+  destruct (parse_datetimespec_meaning c) as (Hs & _).
+  destruct (Hs ((days_of_civil (dval 0 y4) (dval 0 m2) (dval 0 d2) * DAY + dval 0 h2 * 3600 + dval 0 mi2 * 60 + dval 0 s2) * US + frac_val f) (zone_val z))
+    as (ps & Hps & Hi).
+  exists ps. split; [assumption|]. rewrite Hi. unfold instant. cbn [wall off]. reflexivity.
+Qed.
